@@ -194,4 +194,33 @@ VF_E void g_minmax_element(long f, long l, long* a, long* b) { auto r = etl::min
 VF_E long g_max_element_gt(long f, long l) { return etl::max_element(git{f}, git{l}, etl::greater()).i; }
 VF_E bool x_is_partitioned(it const& f, it const& l) { return etl::is_partitioned(f, l, pred3{}); }
 VF_E void x_iota(uit const& f, uit const& l, uint v) { etl::iota(f, l, v); }
+
+// ---- second wave: algorithms that so far only had bounded stand-ins (fam/algob)
+// read-only source ranges of the copying algorithms: idx<int const>.  etl::copy<idx<int const>, idx<int>> is thereby a different
+// instantiation than etl::copy<idx<int>, idx<int>> and carries its own, parameter-relative contract (etl_copy_c), which the callers
+// rotate_copy / merge / set_* are checked against (replace=).
+using cit = idx<int const>;
+struct u_xor { constexpr auto operator()(uint a, uint b) const -> uint { return a ^ b; } };
+struct u_and { constexpr auto operator()(uint a, uint b) const -> uint { return a & b; } };
+struct u_triple { constexpr auto operator()(uint a) const -> uint { return a * 3U; } };
+// comparator on the key x >> 4 (the low four bits are a tag: equivalent-but-different elements make the tie rules observable)
+struct klt { constexpr auto operator()(int const& a, int const& b) const -> bool { return (a >> 4) < (b >> 4); } };
+VF_E void x_partition_copy(it const& f, it const& l, it const& dt, it const& df, it* ot, it* of) { auto r = etl::partition_copy(f, l, dt, df, pred3{}); *ot = r.first; *of = r.second; }
+VF_E uint transform_reduce2_u(uint* f, uint* l, uint* f2, uint init) { return etl::transform_reduce(f, l, f2, init); }
+VF_E uint transform_reduce2_op(uint* f, uint* l, uint* f2, uint init) { return etl::transform_reduce(f, l, f2, init, u_xor{}, u_and{}); }
+VF_E uint transform_reduce1_u(uint* f, uint* l, uint init) { return etl::transform_reduce(f, l, init, etl::plus(), u_triple{}); }
+VF_E void x_copy_c(cit const& f, cit const& l, it const& d, it* o) { *o = etl::copy(f, l, d); }
+VF_E void x_rotate_copy(cit const& f, cit const& m, cit const& l, it const& d, it* o) { *o = etl::rotate_copy(f, m, l, d); }
+VF_E void x_shift_left(it const& f, it const& l, long n, it* o) { *o = etl::shift_left(f, l, n); }
+VF_E void x_shift_right(it const& f, it const& l, long n, it* o) { *o = etl::shift_right(f, l, n); }
+VF_E void x_find_if_not(it const& f, it const& l, it* o) { *o = etl::find_if_not(f, l, pred3{}); }
+VF_E void x_partition(it const& f, it const& l, it* o) { *o = etl::partition(f, l, pred3{}); }
+VF_E int* search_n_int(int* f, int* l, long c, int const& v) { return etl::search_n(f, l, c, v); }
+VF_E int* find_first_of_int(int* f, int* l, int* sf, int* sl) { return etl::find_first_of(f, l, sf, sl); }
+VF_E bool includes_int(int* f1, int* l1, int* f2, int* l2) { return etl::includes(f1, l1, f2, l2); }
+VF_E void x_merge(cit const& f1, cit const& l1, cit const& f2, cit const& l2, it const& d, it* o) { *o = etl::merge(f1, l1, f2, l2, d, klt{}); }
+VF_E void x_set_union(cit const& f1, cit const& l1, cit const& f2, cit const& l2, it const& d, it* o) { *o = etl::set_union(f1, l1, f2, l2, d, klt{}); }
+VF_E void x_set_intersection(cit const& f1, cit const& l1, cit const& f2, cit const& l2, it const& d, it* o) { *o = etl::set_intersection(f1, l1, f2, l2, d, klt{}); }
+VF_E void x_set_difference(cit const& f1, cit const& l1, cit const& f2, cit const& l2, it const& d, it* o) { *o = etl::set_difference(f1, l1, f2, l2, d, klt{}); }
+VF_E void x_set_symmetric_difference(cit const& f1, cit const& l1, cit const& f2, cit const& l2, it const& d, it* o) { *o = etl::set_symmetric_difference(f1, l1, f2, l2, d, klt{}); }
 } // namespace vf
